@@ -6,13 +6,27 @@ the directory and the ZIP64 end record.
 
 `Spec.Zip.Layout` / `build` lay the central records out in the order of the local records and cannot say any
 of this.  `Spec.Zip.LayoutG` (Spec/ZipOrder.lean) adds `cdOrder` (the indices the directory lists, in its own
-order), `eocdSaturate`, `end64Ext`, `end64Gap`; `buildG` lays the bytes out, `viewOfG` says what a reader must
-report: the DIRECTORY's entries in the DIRECTORY's order, each with the offset of its own local header.
+order), `eocdSaturate`, `end64Ext`, `end64Gap` and — per entry — `z64Place`: the number of foreign central extra
+records IN FRONT of the ZIP64 extended information record (APPNOTE 4.5 does not order the records of an extra
+field) and its optional 4-byte disk-start field (the record then exists even when it carries nothing else, and
+the header's 16-bit disk field holds 0xFFFF).  `buildG` lays the bytes out, `viewOfG` says what a reader must
+report: the DIRECTORY's entries in the DIRECTORY's order, each with the offset of its own local header, sizes and
+offset taken from the ZIP64 record wherever it sits, the extra field verbatim.
 With the identity order and the defaults `buildG` is `build` and `viewOfG` is `viewOf` (`buildG_ofLayout`,
 `viewOfG_ofLayout`), so `C03.reader_on_wf` is the instance `reader_on_wf_cd_order (LayoutG.ofLayout l)`.
 
-NOT covered by a theorem (generated and read correctly by crate and model reader on the same bytes, `read`
-stream class `builder.g`): the central ZIP64 record BEHIND other extra records, and its 4-byte disk-start field.
+The record-sequence argument is `Lemmas/CentralParseG` (`parseExtra_front`: foreign records in front are skipped
+one by one; `parseExtra_z64G`: the 0x0001 record with any subset of its three 64-bit fields — the empty one
+included — and the disk-start field, which the reader skips; `extra_on_centralG`, `parses_centralHeaderG`).
+Hypothesis changed with respect to the first version of this file: `LayoutG.Fits` has a fourth clause — the
+extra field of every LISTED central record fits its 16-bit length — because with the disk-start field the ZIP64
+record may have 32 bytes, 4 more than `Entry.Fits` reserves (for plain layouts it follows from `Entry.Fits`:
+`fits_ofLayout`).
+
+Central extra fields with a WinZip-AES record (0x9901) are C16's subject and excluded here by `Readable`
+(`ExtraOk`, method ≠ 99).  Before the K-C repair (`fixes/kc-aes-extra-consumed.patch`) an AES record IN FRONT of
+the ZIP64 record lost the ZIP64 values; `Props.C16.kc_aes_zip64_any_order` is the kernel-checked statement that
+it no longer does.
 -/
 
 namespace ZipVerif.Props.C03Order
@@ -64,6 +78,47 @@ theorem archive_fields (g : LayoutG) :
     (archiveOfG g).files = viewOfG g ∧ (archiveOfG g).files.length = g.cdList.length :=
   ⟨rfl, rfl, rfl, viewListP_length _ _ _⟩
 
+theorem placeOf_ofLayout (l : Layout) (i : Nat) : (LayoutG.ofLayout l).placeOf i = {} := by
+  simp [LayoutG.placeOf, LayoutG.ofLayout]
+
+/-- What `viewEntryG` says, field by field: everything `viewEntry` says (sizes and offset are the ENTRY's, i.e.
+the values the ZIP64 record carries when the 32-bit slots hold the marker), and as extra data the central record's
+whole extra field as laid out — the foreign records with the ZIP64 record between them. -/
+theorem viewG_fields (e : Entry) (off pre chs : Nat) (pl : Z64Place) :
+    (viewEntryG e off pre chs pl).compressedSize = e.csize ∧
+    (viewEntryG e off pre chs pl).uncompressedSize = e.usize ∧
+    (viewEntryG e off pre chs pl).headerStart = UInt64.ofNat (off + pre) ∧
+    (viewEntryG e off pre chs pl).largeFile = (e.zU || e.zC) ∧
+    (viewEntryG e off pre chs pl).extraField =
+      (splitRecords pl.pos e.centralExtra).1 ++ (e.centralZ64G (UInt64.ofNat off) pl.disk ++
+        (splitRecords pl.pos e.centralExtra).2) ∧
+    (viewEntryG e off pre chs pl).extraField.length =
+      e.centralExtra.length + (e.centralZ64G (UInt64.ofNat off) pl.disk).length ∧
+    (viewEntryG e off pre chs pl).fileNameRaw = e.name ∧ (viewEntryG e off pre chs pl).crc32 = e.crc :=
+  ⟨rfl, rfl, rfl, rfl, rfl, centralExtraAllG_length e _ pl, rfl, rfl⟩
+
+/-- for a plain layout the fourth clause of `LayoutG.Fits` follows from `Entry.Fits` -/
+theorem fits_ofLayout (l : Layout) (h : ∀ e ∈ l.entries, e.Fits) :
+    ∀ q ∈ (LayoutG.ofLayout l).cdList, (q.1.1.centralExtraAllG (UInt64.ofNat q.1.2) q.2).length ≤ 0xFFFF := by
+  intro q hq
+  obtain ⟨es1, es2, h1, _⟩ := mem_cdList _ q hq
+  have hm : q.1.1 ∈ l.entries := by
+    have : (LayoutG.ofLayout l).base.entries = l.entries := rfl
+    rw [← this, h1]; simp
+  have hf := (h _ hm).2.2.2.1
+  have hl := centralExtraAllG_length q.1.1 (UInt64.ofNat q.1.2) q.2
+  have hq2 : q.2 = {} := by
+    simp only [LayoutG.cdList, List.mem_filterMap, Option.map_eq_some_iff] at hq
+    obtain ⟨i, _, p, _, hp⟩ := hq
+    rw [← hp]
+    exact placeOf_ofLayout l i
+  rw [hq2] at hl ⊢
+  have hz : (q.1.1.centralZ64G (UInt64.ofNat q.1.2) none).length ≤ 28 := by
+    rw [centralZ64G_none]; exact centralZ64_length_le _ _
+  have hd : ({} : Z64Place).disk = none := rfl
+  rw [hd] at hl
+  omega
+
 /-! ### which entry is reported at which index -/
 
 theorem filterMap_getElem_of_isSome {α β} (f : α → Option β) : ∀ (l : List α) (i : Nat),
@@ -102,7 +157,8 @@ theorem placed_getElem_of : ∀ (es : List Entry) (loc j : Nat) (e : Entry), es[
 directory holds entry `cdOrder[i]`. -/
 theorem cdList_getElem (g : LayoutG) (hin : ∀ j ∈ g.cdOrder, j < g.base.entries.length)
     (i j : Nat) (e : Entry) (hi : g.cdOrder[i]? = some j) (he : g.base.entries[j]? = some e) :
-    ∃ off, (localOffsets g.base.entries 0)[j]? = some off ∧ g.cdList[i]? = some (e, off) := by
+    ∃ off, (localOffsets g.base.entries 0)[j]? = some off ∧
+      g.cdList[i]? = some ((e, off), g.placeOf j) := by
   obtain ⟨off, h1, h2⟩ := placed_getElem_of g.base.entries 0 j e he
   refine ⟨off, h1, ?_⟩
   unfold LayoutG.cdList
@@ -110,7 +166,7 @@ theorem cdList_getElem (g : LayoutG) (hin : ∀ j ∈ g.cdOrder, j < g.base.entr
     have := hin x hx
     rw [← placed_length g.base.entries 0] at this
     simp [List.getElem?_eq_getElem this]), hi]
-  exact h2
+  simp [h2]
 
 theorem isPermutation_inRange (g : LayoutG) (hp : g.IsPermutation) :
     ∀ j ∈ g.cdOrder, j < g.base.entries.length := by
@@ -126,7 +182,8 @@ theorem count_of_permutation (g : LayoutG) (hp : g.IsPermutation) :
   have hl : g.cdList.length = g.cdOrder.length := by
     unfold LayoutG.cdList
     have : ∀ (l : List Nat), (∀ j ∈ l, j < g.base.entries.length) →
-        (l.filterMap fun i => (placed g.base.entries 0)[i]?).length = l.length := by
+        (l.filterMap fun i => ((placed g.base.entries 0)[i]?).map fun p => (p, g.placeOf i)).length =
+          l.length := by
       intro l
       induction l with
       | nil => intro _; rfl
@@ -134,21 +191,23 @@ theorem count_of_permutation (g : LayoutG) (hp : g.IsPermutation) :
         intro h
         have ha := h a (List.mem_cons_self)
         rw [← placed_length g.base.entries 0] at ha
-        rw [List.filterMap_cons_some (List.getElem?_eq_getElem ha)]
+        rw [List.filterMap_cons_some (b := ((placed g.base.entries 0)[a], g.placeOf a))
+          (by rw [List.getElem?_eq_getElem ha]; rfl)]
         simp [ih (fun x hx => h x (List.mem_cons_of_mem _ hx))]
     exact this _ hin
   rw [hl, hp.length_eq, List.length_range]
 
 /-- **Entry `i` of the reported list is the view of entry `cdOrder[i]`**, at the offset of that entry's own
-local header (shifted by the prefix): names, sizes, CRC, method, time, attributes, extra data and comment as
-recorded in its central record (`C03.view_fields`, `C03.extra_verbatim`, `C03.unix_mode_spec` apply to
-`viewEntry` verbatim). -/
+local header (shifted by the prefix): names, sizes, CRC, method, time, attributes and comment as recorded in its
+central record (`C03.view_fields`, `C03.unix_mode_spec` apply to `viewEntry`, which `viewEntryG` equals in every
+field but `extraField`), and as extra data the central record's whole extra field — the foreign records with the
+ZIP64 record where the layout places it (`Entry.centralExtraAllG`). -/
 theorem entry_view (g : LayoutG) (hin : ∀ j ∈ g.cdOrder, j < g.base.entries.length)
     (i j : Nat) (e : Entry) (hi : g.cdOrder[i]? = some j) (he : g.base.entries[j]? = some e) :
     ∃ off chs, (localOffsets g.base.entries 0)[j]? = some off ∧
-      (archiveOfG g).files[i]? = some (viewEntry e off g.base.pre.length chs) := by
+      (archiveOfG g).files[i]? = some (viewEntryG e off g.base.pre.length chs (g.placeOf j)) := by
   obtain ⟨off, h1, h2⟩ := cdList_getElem g hin i j e hi he
-  obtain ⟨chs, h3⟩ := viewListP_getElem g.base.pre.length g.cdList g.cdStart i (e, off) h2
+  obtain ⟨chs, h3⟩ := viewListP_getElem g.base.pre.length g.cdList g.cdStart i ((e, off), g.placeOf j) h2
   exact ⟨off, chs, h1, h3⟩
 
 /-! ### reading entries through the permuted directory -/
@@ -163,7 +222,7 @@ theorem reader_entry_raw (g : LayoutG) (hF : g.Fits) (hin : ∀ j ∈ g.cdOrder,
       (byIndexRaw (archiveOfG g) i).runPure d = (.ok (e.dataStart off g.base.pre.length, e.data), d') ∧
       d'.buf = buildG g := by
   obtain ⟨off, h1, h2⟩ := cdList_getElem g hin i j e hi he
-  obtain ⟨d', h3, h4, _⟩ := runs_byIndexRawG g hF i (e, off) h2 d.pos d hd rfl
+  obtain ⟨d', h3, h4, _⟩ := runs_byIndexRawG g hF i ((e, off), g.placeOf j) h2 d.pos d hd rfl
   exact ⟨off, d', h1, h3, h4⟩
 
 /-- **`by_index(i)` read to the end**: the decoder's output on the stored bytes of entry `cdOrder[i]`, gated by
@@ -179,7 +238,7 @@ theorem reader_entry_read (ext : Ext) (g : LayoutG) (hF : g.Fits)
           ext.decode (Method.fromU16 e.method) e.data >>= fun c => crcCheck false e.crc c)), d') ∧
       d'.buf = buildG g := by
   obtain ⟨off, h1, h2⟩ := cdList_getElem g hin i j e hi he
-  obtain ⟨d', h3, h4, _⟩ := runs_byIndexReadG ext g hF i (e, off) h2 pw henc hdec d.pos d hd rfl
+  obtain ⟨d', h3, h4, _⟩ := runs_byIndexReadG ext g hF i ((e, off), g.placeOf j) h2 pw henc hdec d.pos d hd rfl
   exact ⟨off, d', h1, h3, h4⟩
 
 /-- **End to end**: open the archive, then read the entry the directory lists at position `i`. -/
@@ -214,25 +273,36 @@ theorem filterMap_range_getElem {α} (l : List α) :
   · have h' : l.length ≤ i := Nat.le_of_not_lt h
     simp [List.getElem?_eq_none h', List.getElem?_eq_none (by simpa using h' : (List.range l.length).length ≤ i)]
 
-theorem cdList_ofLayout (l : Layout) : (LayoutG.ofLayout l).cdList = placed l.entries 0 := by
-  unfold LayoutG.cdList LayoutG.ofLayout
+theorem cdList_ofLayout (l : Layout) :
+    (LayoutG.ofLayout l).cdList = (placed l.entries 0).map fun p => (p, ({} : Z64Place)) := by
+  unfold LayoutG.cdList
+  simp only [placeOf_ofLayout]
   have := filterMap_range_getElem (placed l.entries 0)
   rw [placed_length] at this
-  exact this
+  have hm : (List.range l.entries.length).filterMap
+        (fun i => ((placed l.entries 0)[i]?).map fun p => (p, ({} : Z64Place))) =
+      ((List.range l.entries.length).filterMap fun i => (placed l.entries 0)[i]?).map
+        fun p => (p, ({} : Z64Place)) := by
+    rw [List.map_filterMap]
+  exact hm.trans (by rw [this])
 
 theorem centralBytesP_placed : ∀ (es : List Entry) (loc : Nat),
-    centralBytesP (placed es loc) = centralBytes es (localOffsets es loc) := by
+    centralBytesP ((placed es loc).map fun p => (p, ({} : Z64Place))) = centralBytes es (localOffsets es loc) := by
   intro es
   induction es with
   | nil => intro _; rfl
-  | cons e es ih => intro loc; simp [placed, localOffsets, centralBytesP, centralBytes, ih]
+  | cons e es ih =>
+    intro loc
+    simp [placed, localOffsets, centralBytesP, centralBytes, ih, centralRecordG_default]
 
 theorem viewListP_placed (pre : Nat) : ∀ (es : List Entry) (loc chs : Nat),
-    viewListP pre (placed es loc) chs = viewList pre es loc chs := by
+    viewListP pre ((placed es loc).map fun p => (p, ({} : Z64Place))) chs = viewList pre es loc chs := by
   intro es
   induction es with
   | nil => intro _ _; rfl
-  | cons e es ih => intro loc chs; simp [placed, viewListP, viewList, ih]
+  | cons e es ih =>
+    intro loc chs
+    simp [placed, viewListP, viewList, ih, centralRecordG_default, viewEntryG_default]
 
 /-- the reader's obligation for a plain layout is the instance at the identity order -/
 theorem viewOfG_ofLayout (l : Layout) : viewOfG (LayoutG.ofLayout l) = viewOf l := by
@@ -247,7 +317,7 @@ theorem buildG_ofLayout (l : Layout) : buildG (LayoutG.ofLayout l) = build l := 
     rw [cdList_ofLayout, centralBytesP_placed]
   have hsz : (LayoutG.ofLayout l).cdSize = l.cdSize := by unfold LayoutG.cdSize Layout.cdSize; rw [hcd]
   have hcnt : (LayoutG.ofLayout l).count = l.count := by
-    unfold LayoutG.count Layout.count; rw [cdList_ofLayout, placed_length]
+    unfold LayoutG.count Layout.count; rw [cdList_ofLayout, List.length_map, placed_length]
   have hoff : (LayoutG.ofLayout l).cdOffset = l.cdOffset := rfl
   have hn : (LayoutG.ofLayout l).needs64 = l.needs64 := by
     unfold LayoutG.needs64 Layout.needs64; rw [hsz, hcnt, hoff]; rfl
@@ -303,5 +373,43 @@ example : unsaturated.Fits ∧ unsaturated.base.Readable ∧ NoFalseSigG unsatur
 
 /-- ... and so it does on the ZIP64 variant (gap, extensible data sector, real values in the plain end record) -/
 example : buildG unsaturated = [80, 75, 3, 4, 20, 0, 0, 0, 0, 0, 0, 0, 33, 0, 67, 190, 183, 232, 1, 0, 0, 0, 1, 0, 0, 0, 1, 0, 0, 0, 97, 97, 80, 75, 3, 4, 20, 0, 0, 0, 0, 0, 0, 0, 33, 0, 174, 27, 174, 181, 2, 0, 0, 0, 2, 0, 0, 0, 1, 0, 0, 0, 98, 98, 98, 80, 75, 1, 2, 20, 3, 20, 0, 0, 0, 0, 0, 0, 0, 33, 0, 174, 27, 174, 181, 2, 0, 0, 0, 2, 0, 0, 0, 1, 0, 0, 0, 0, 0, 0, 0, 0, 0, 0, 0, 164, 129, 32, 0, 0, 0, 98, 80, 75, 1, 2, 20, 3, 20, 0, 0, 0, 0, 0, 0, 0, 33, 0, 67, 190, 183, 232, 1, 0, 0, 0, 1, 0, 0, 0, 1, 0, 0, 0, 0, 0, 0, 0, 0, 0, 0, 0, 164, 129, 0, 0, 0, 0, 97, 1, 2, 3, 80, 75, 6, 6, 52, 0, 0, 0, 0, 0, 0, 0, 45, 0, 45, 0, 0, 0, 0, 0, 0, 0, 0, 0, 2, 0, 0, 0, 0, 0, 0, 0, 2, 0, 0, 0, 0, 0, 0, 0, 94, 0, 0, 0, 0, 0, 0, 0, 65, 0, 0, 0, 0, 0, 0, 0, 101, 0, 2, 0, 0, 0, 7, 7, 80, 75, 6, 7, 0, 0, 0, 0, 162, 0, 0, 0, 0, 0, 0, 0, 1, 0, 0, 0, 80, 75, 5, 6, 0, 0, 0, 0, 2, 0, 2, 0, 94, 0, 0, 0, 65, 0, 0, 0, 0, 0] := by decide +kernel
+
+/-! ### non-vacuity: the ZIP64 record BEHIND foreign records, with the disk-start field -/
+
+/-- entry a with two foreign central records (0x5455, 0xcafe) and compressed size + offset forced through the
+ZIP64 record -/
+def entryAz : Entry :=
+  { entryA with centralExtra := [0x55, 0x54, 1, 0, 7, 0xfe, 0xca, 2, 0, 8, 9], z64 := (false, true, true) }
+
+/-- entry b with one foreign central record; its ZIP64 record will hold the disk-start field only -/
+def entryBz : Entry := { entryB with centralExtra := [0x0a, 0, 0, 0] }
+
+/-- local order a, b — central order b, a; a's ZIP64 record behind its FIRST foreign record, b's behind its only
+one (position 5 is clamped to the number of records); both carry the disk-start field -/
+def placedZ64 : LayoutG :=
+  { base := { pre := [], entries := [entryAz, entryBz], gapBeforeCd := [], comment := [], zip64End := false,
+              trailing := [] },
+    cdOrder := [1, 0],
+    z64Place := [{ pos := 1, disk := some 0 }, { pos := 5, disk := some 0 }] }
+
+example : placedZ64.Fits ∧ placedZ64.base.Readable ∧ NoFalseSigG placedZ64 ∧ placedZ64.needs64 = false ∧
+    placedZ64.IsPermutation := ⟨by decide +kernel, by decide +kernel, by decide +kernel, by decide +kernel,
+      List.Perm.swap 0 1 []⟩
+
+/-- the extra fields as laid out: b = foreign record, then a ZIP64 record of 4 bytes (disk number); a = UT record,
+ZIP64 record of 20 bytes (compressed size 1, offset 0, disk 0), then the 0xcafe record -/
+example : (viewOfG placedZ64).map (·.extraField) =
+    [[0x0a, 0, 0, 0, 1, 0, 4, 0, 0, 0, 0, 0],
+     [0x55, 0x54, 1, 0, 7, 1, 0, 20, 0, 1, 0, 0, 0, 0, 0, 0, 0, 0, 0, 0, 0, 0, 0, 0, 0, 0, 0, 0, 0,
+      0xfe, 0xca, 2, 0, 8, 9]] := by decide +kernel
+
+/-- ... and what the reader must report for them: the real sizes and offsets -/
+example : (viewOfG placedZ64).map (fun f => (f.fileNameRaw, f.compressedSize, f.uncompressedSize, f.headerStart,
+    f.largeFile)) = [([0x62], 2, 2, 32, false), ([0x61], 1, 1, 0, true)] := by decide +kernel
+
+/-- the same layout laid out by the INDEPENDENT Rust builder (harness/src/mkzip.rs, test `f7_witness`, `PLACED`;
+the real crate opens these bytes and reports a with compressed size 1, size 1, header offset 0): `buildG` agrees
+byte for byte -/
+example : buildG placedZ64 = [80, 75, 3, 4, 20, 0, 0, 0, 0, 0, 0, 0, 33, 0, 67, 190, 183, 232, 1, 0, 0, 0, 1, 0, 0, 0, 1, 0, 0, 0, 97, 97, 80, 75, 3, 4, 20, 0, 0, 0, 0, 0, 0, 0, 33, 0, 174, 27, 174, 181, 2, 0, 0, 0, 2, 0, 0, 0, 1, 0, 0, 0, 98, 98, 98, 80, 75, 1, 2, 20, 3, 20, 0, 0, 0, 0, 0, 0, 0, 33, 0, 174, 27, 174, 181, 2, 0, 0, 0, 2, 0, 0, 0, 1, 0, 12, 0, 0, 0, 255, 255, 0, 0, 0, 0, 164, 129, 32, 0, 0, 0, 98, 10, 0, 0, 0, 1, 0, 4, 0, 0, 0, 0, 0, 80, 75, 1, 2, 20, 3, 20, 0, 0, 0, 0, 0, 0, 0, 33, 0, 67, 190, 183, 232, 255, 255, 255, 255, 1, 0, 0, 0, 1, 0, 35, 0, 0, 0, 255, 255, 0, 0, 0, 0, 164, 129, 255, 255, 255, 255, 97, 85, 84, 1, 0, 7, 1, 0, 20, 0, 1, 0, 0, 0, 0, 0, 0, 0, 0, 0, 0, 0, 0, 0, 0, 0, 0, 0, 0, 0, 254, 202, 2, 0, 8, 9, 80, 75, 5, 6, 0, 0, 0, 0, 2, 0, 2, 0, 141, 0, 0, 0, 65, 0, 0, 0, 0, 0] := by decide +kernel
 
 end ZipVerif.Props.C03Order
